@@ -177,7 +177,12 @@ def check(model, tier):
                 run.fail("R01.4", inst + ":stop", "the slice iterable stops on a condition other than `stop is not None and n == stop`", fi=it, node=p.node, details=describe(p))
         elif yielded:
             yields += 1
-            stop_tested_first = any(f.kind in ("EQ", "LE", "OR") for f in facts[:2]) or not has_fact(facts, "IS", ("None", "self.stop"), False)
+            stop_texts = {nvar, "self.stop"}
+            def _about_stop(f):
+                if f.kind == "OR":
+                    return any(_about_stop(x) for alt in f.parts for x in alt)
+                return (f.kind in ("EQ", "LE", "LT") and set(f.args) == stop_texts) or (f.kind == "IS" and "self.stop" in f.args)
+            stop_tested_first = any(_about_stop(f) for f in facts)
             if ge_start and not stop_hit and stop_tested_first:
                 run.ok("R01.4", inst + ":yield")
             else:
@@ -217,19 +222,49 @@ def check(model, tier):
         run.ok("R01.4", "SelectionRowIterable:row-shape")
     else:
         run.fail("R01.4", "SelectionRowIterable:row-shape", "SelectionRowIterable does not keep exactly the rows for which the predicate callable is true", fi=itf)
+    from ..astutil import arg_or_kw
+
+    def _resolved(p, e):
+        if isinstance(e, ast.Name):
+            b = resolve_name(p, e.id)
+            if isinstance(b, ast.expr):
+                return b
+        return e
+
     rs = ctx.cls(IT_ROWS, "RowSequence").methods.get("sliced")
     if rs is not None:
-        rets = [src(p.value) for p in ctx.paths(rs) if p.outcome == "return"]
         ps = [q for q in rs.params if q != "self"]
-        if rets == [f"RowSequence(self.rows[{ps[0]}:{ps[1]}])"]:
+        ok = True
+        rets = []
+        for p in ctx.paths(rs):
+            if p.outcome != "return":
+                continue
+            v = p.value
+            rets.append(src(v))
+            a = _resolved(p, arg_or_kw(v, 0, "rows")) if isinstance(v, ast.Call) and (dotted(v.func) or "") == "RowSequence" else None
+            if a is None or src(a) != f"self.rows[{ps[0]}:{ps[1]}]":
+                ok = False
+        if ok and rets:
             run.ok("R01.4", "RowSequence.sliced")
         else:
             run.fail("R01.4", "RowSequence.sliced", f"RowSequence.sliced returns {rets} instead of the [start:stop] window of its rows", fi=rs)
     bs = base.methods.get("sliced")
     if bs is not None:
-        rets = [src(p.value) for p in ctx.paths(bs) if p.outcome == "return"]
         ps = [q for q in bs.params if q != "self"]
-        if rets == [f"SliceRowIterable(self, {ps[0]}, {ps[1]})"]:
+        ok = True
+        rets = []
+        for p in ctx.paths(bs):
+            if p.outcome != "return":
+                continue
+            v = p.value
+            rets.append(src(v))
+            if not (isinstance(v, ast.Call) and (dotted(v.func) or "") == "SliceRowIterable"):
+                ok = False
+                continue
+            got = [arg_or_kw(v, 0, "target"), arg_or_kw(v, 1, "start"), arg_or_kw(v, 2, "stop")]
+            if [src(_resolved(p, g)) if g is not None else None for g in got] != ["self", ps[0], ps[1]]:
+                ok = False
+        if ok and rets:
             run.ok("R01.4", "RowIterable.sliced")
         else:
             run.fail("R01.4", "RowIterable.sliced", f"RowIterable.sliced returns {rets}", fi=bs)
@@ -309,12 +344,15 @@ def check(model, tier):
     ok = False
     for p in ctx.paths(tm):
         v = p.value
-        if isinstance(v, ast.Call) and (dotted(v.func) or "") == "RowMapping" and len(v.args) == 2 and src(v.args[0]) == uk and isinstance(v.args[1], ast.DictComp):
-            d = v.args[1]
+        if isinstance(v, ast.Call) and (dotted(v.func) or "") == "RowMapping":
+            a_key = _resolved(p, arg_or_kw(v, 0, "unique_key"))
+            d = _resolved(p, arg_or_kw(v, 1, "rows"))
+            if a_key is None or src(a_key) != uk or not isinstance(d, ast.DictComp):
+                continue
             g = d.generators[0]
             ok = src(g.iter) == "self" and not g.ifs and src(d.value) == src(g.target)
             key = d.key
-            ok = ok and isinstance(key, ast.Call) and call_attr(key) == "tuple" and any(isinstance(n, ast.GeneratorExp) and src(n.generators[0].iter) == uk and src(n.elt) == f"{src(g.target)}[{src(n.generators[0].target)}]" for n in ast.walk(key))
+            ok = ok and isinstance(key, ast.Call) and call_attr(key) == "tuple" and any(isinstance(n, (ast.GeneratorExp, ast.ListComp)) and src(n.generators[0].iter) == uk and src(n.elt) == f"{src(g.target)}[{src(n.generators[0].target)}]" for n in ast.walk(key))
     if ok:
         run.ok("R01.6", "RowIterable.to_mapping")
     else:
